@@ -1,9 +1,10 @@
-"""System V variants of PSemaphore / PShm (psemaphore-sysv.c, pshm-sysv.c): API-level differential against the SPEC
-column of the IPC driver (PV.Spec.IPC).  There is no System V model: a difference is judged implementation(sysv) vs
-spec view only (concrete replay), never as a correspondence break.
+"""System V variants of PSemaphore / PShm (psemaphore-sysv.c, pshm-sysv.c): differential against the SPEC column of
+the IPC driver (PV.Spec.IPC) and against the MODEL column of `pvdriver ipcsysv` (PV.Model.IPCSysV).  Implementation vs
+spec view -> concrete replay (violation, or KNOWN-FINDING by signature); implementation vs model only -> correspondence
+break -> `no-failing-input-found` (conclude_tie) unless a concrete replay was reported as well.
 
-harness/ipc_sysv.c is harness/ipc.c reduced to the public API (no system-call wrappers) and linked with the sysv files
-instead of the posix ones.  The spec view of a history is what the driver's spec says, minus what the property
+harness/ipc_sysv.c is the server / worker layout of harness/ipc.c linked with the sysv files instead of the posix ones;
+every system call of an op is logged through link-time wrappers.  The spec view of a history is what the driver's spec says, minus what the property
 statements do not determine for a System V implementation (class `Region`, every rule names its reason):
 
   T1  acquire/release through a semaphore handle opened before a later CREATE-mode open or owner free of its name
@@ -38,8 +39,9 @@ NW, NN, NH, PAGE = ipc.NW, ipc.NN, ipc.NH, ipc.PAGE
 SEMVMX = 32767
 
 ASSUMPTIONS = [
-    "System V variants (psemaphore-sysv.c, pshm-sysv.c): no model; they are tied by an API-level differential against the spec of C06/C07 only (harness/ipc_sysv.c links them instead of the posix files; no system-call traces, EINTR scripts or crash points inside a call; their function bodies are not pinned by the translator)",
-    "System V contract (trusted): semget/shmget with IPC_CREAT|IPC_EXCL is an atomic test-and-create on the key, semop is atomic, IPC_RMID removes a set at once and a segment at its last detach, ftok keys of the key files in use do not collide (16 inode bits + 8 device bits)",
+    "System V variants (psemaphore-sysv.c, pshm-sysv.c, key files of pipc.c): model PV.Model.IPCSysV over an abstract System V machine, theorems PV.Props.C06sysv / C07sysv; every function body is pinned by the translator (Generated/IPCSysV: flags, commands, errno tests, sembuf objects, call-site order); harness/ipc_sysv.c links them instead of the posix files and logs every system call (-Wl,--wrap): each answer line is compared with the model column (correspondence) and, API view, with the spec column",
+    "System V contract (trusted): semget/shmget with IPC_CREAT|IPC_EXCL is an atomic test-and-create on the key, semop is atomic, IPC_RMID removes a set at once and a segment at its last detach, ftok keys of the key files in use do not collide (16 inode bits + 8 device bits; the model takes ftok = inode number), SETVAL clears the SEM_UNDO adjustments, a dead id answers EINVAL (EIDRM only for a sleeper), permission checks never fail (the check runs as root)",
+    "System V model: whether a new key file gets the inode number of an unlinked one is an oracle of the model (OS.reuse); histories on the inode-reusing file system are tied to the model only for the recorded finding F15, the others run on tmpfs (no reuse)",
     "System V build: key files in $TMPDIR (the harness builds the library with glibc's P_tmpdir undefined so that p_ipc_unix_get_temp_dir honours $TMPDIR; campaigns run in a private tmpfs directory, the inode-reuse probe in a private directory of the check's cache)",
     "System V: counter values are limited to SEMVMX = 32767 (semctl SETVAL fails with ERANGE above): histories use initial values <= 300",
     "System V: not judged because the statements do not determine it (rules T1-T3, U1-U4 of tools/props/ipc_sysv.py): handles opened before a CREATE-mode open / owner free of their name; plain free of a CREATE-on-existing handle; removal of a segment at its last detach; plain free of the creating PShm handle while others are attached; owner handles of an earlier incarnation",
@@ -51,9 +53,13 @@ HDR = os.path.join(pv.HARNESS, "sysv_tmpdir.h")
 ROOT = os.geteuid() == 0      # a segment created READONLY has mode 0444: only CAP_IPC_OWNER can then attach it READWRITE
 
 
+WRAP = ["open", "close", "stat", "ftok", "unlink", "semget", "semctl", "semop", "shmget", "shmctl", "shmat", "shmdt"]
+
+
 def build(cfg):
     files = [f for f in cfg["sources"] if f not in ("psemaphore-posix.c", "pshm-posix.c")] + ["psemaphore-sysv.c", "pshm-sysv.c"]
-    return pv.build_harness("ipc_sysv", cfg, ["ipc_sysv.c"], repo_files=files, san="asan", extra=["-include", HDR])
+    return pv.build_harness("ipc_sysv", cfg, ["ipc_sysv.c"], repo_files=files, san="asan", extra=["-include", HDR],
+                            link=["-Wl," + ",".join("--wrap=" + w for w in WRAP)])
 
 
 # ---------------------------------------------------------------------------------------------
@@ -263,6 +269,13 @@ class Fam:
         self.exe, self.ext4, self.timeout = exe, ext4, timeout
         self.leftovers = 0
         self.runs = 0
+        self.corr = []           # implementation / System V model differences: (ops up to the difference, dict(kind='model', …))
+        self.model_checked = 0   # answer lines compared with the model column
+
+    def model_lines(self, ops):
+        """model column of `pvdriver ipcsysv` (PV.Model.IPCSysV; inode numbers reused when the key files live on such a file system)"""
+        rc, out, err = pv.run_model("ipcsysv-reuse" if self.ext4 else "ipcsysv", "".join(o + "\n" for o in ops))
+        return rc, [diffrun.split_model_line(l)[0] for l in out.splitlines()], err
 
     def run_c(self, text):
         base = pv.CACHE if self.ext4 or not os.path.isdir("/dev/shm") else "/dev/shm"
@@ -296,7 +309,7 @@ class Fam:
         return rc, res, err
 
 
-def judge(fam, ops, masked=True):
+def judge(fam, ops, masked=True, tie=True):
     """implementation(sysv) against the spec view.  None, or dict(kind='spec'|'crash'|'driver', at, detail, impl, spec)"""
     ops = list(ops)
     text = "".join(o + "\n" for o in ops)
@@ -305,6 +318,8 @@ def judge(fam, ops, masked=True):
     if mrc != 0:
         return {"kind": "driver", "at": len(sl), "detail": "model driver failed rc=%s %s" % (mrc, merr[-300:])}
     cl = [ipc.spec_view("", l) for l in cout.splitlines()]
+    if tie and getattr(fam, "tie", True):
+        model_tie(fam, ops, cout.splitlines())
     reg = regions(ops, fam.ext4) if masked else [(True, dict(bt=set(), vt=set(), hn={}))] * len(ops)
     for i in range(min(len(cl), len(sl), len(ops))):
         ok, snap = reg[i]
@@ -332,13 +347,38 @@ def judge(fam, ops, masked=True):
     return None
 
 
+_FAILCODE = re.compile(r"fail \d+/")
+
+
+def model_tie(fam, ops, clines):
+    """implementation against the MODEL column (system calls, results, observer views), line by line and unmasked: the
+    model speaks about every history, also where the statements determine nothing.  A difference is a correspondence
+    break (recorded, never a violation by itself).  Comparison stops where the model has the call wait."""
+    mrc, ml, merr = fam.model_lines(ops)
+    if mrc != 0:
+        fam.corr.append((list(ops), {"kind": "model", "at": len(ml), "detail": "pvdriver ipcsysv failed rc=%s %s" % (mrc, merr[-300:])}))
+        return
+    for i in range(min(len(clines), len(ml), len(ops))):
+        m = ml[i]
+        if m.endswith("would-block") or m.endswith("out-of-fuel"):
+            return
+        c = _FAILCODE.sub("fail /", clines[i])
+        if c.endswith("=> TIMEOUT") or c.endswith("=> died"):
+            fam.corr.append((list(ops[: i + 1]), {"kind": "model", "at": i, "detail": "op %r: implementation(sysv) %r, System V model %r" % (ops[i], c, m)}))
+            return
+        fam.model_checked += 1
+        if c != m:
+            fam.corr.append((list(ops[: i + 1]), {"kind": "model", "at": i, "detail": "op %r: implementation(sysv) %r, System V model %r" % (ops[i], c, m)}))
+            return
+
+
 def shrink(fam, ops, r, budget=50, wall_s=40.0):
     """delta debugging keeping the kind of failure; never accepts a candidate the spec would make wait;
     bounded in tries and wall-clock time (an edit that makes every run crawl must not turn the check into hours)"""
     import time
     t_end = time.time() + wall_s
     def ok(c):
-        r2 = judge(fam, c)
+        r2 = judge(fam, c, tie=False)
         return r2 is not None and r2["kind"] == r["kind"] and "TIMEOUT" not in r2.get("impl", "") and "wait" not in r2["detail"]
     hung = "TIMEOUT" in r.get("impl", "")
     cur = list(ops[: r["at"] + 1])
@@ -417,6 +457,7 @@ class Runner:
         small = shrink(self.fam, ops, r)
         r2 = judge(self.fam, small) or r
         self.reported += 1
+        self.new_violations = getattr(self, "new_violations", 0) + 1
         self.chk.violation("\n".join(small) + "\n# replay: TMPDIR=<empty dir> %s < this file   (harness/ipc_sysv.c, System V variant)\n" % os.path.basename(self.fam.exe),
                            "%s System V variant, %s: %s" % (self.label, r2["kind"], r2["detail"]))
         return r2
@@ -469,6 +510,7 @@ def probe(chk, fam, sig, klass, ops, at, what):
     crc, cout, cerr = fam.run_c(text)
     mrc, sl, merr = fam.spec_lines(ops)
     cl = [ipc.spec_view("", l) for l in cout.splitlines()]
+    model_tie(fam, ops, cout.splitlines())      # the recorded histories are the witnesses of the `…_false` theorems: the model must reproduce them
     c = cl[at] if at < len(cl) else "<none>"
     s = sl[at] if at < len(sl) else "<none>"
     seen = c != s
@@ -637,6 +679,78 @@ def ipcs_count():
     return cnt("/proc/sysvipc/sem"), cnt("/proc/sysvipc/shm")
 
 
+def tie_cases(fam, chk, cases, label):
+    """correspondence only (crash points, EINTR scripts: the spec column of the posix driver does not speak about them)"""
+    def one(c):
+        text = "".join(o + "\n" for o in c)
+        crc, cout, cerr = fam.run_c(text)
+        n0 = len(fam.corr)
+        model_tie(fam, c, cout.splitlines())
+        if len(fam.corr) == n0 and (crc != 0):
+            fam.corr.append((list(c), {"kind": "model", "at": len(cout.splitlines()), "detail": "implementation(sysv) exit status %s: %s" % (crc, cerr[-500:])}))
+        return len(fam.corr) == n0
+    with ThreadPoolExecutor(4) as ex:
+        oks = list(ex.map(one, cases))
+    for c, ok in zip(cases, oks):
+        chk.count("sysv-tie\n" + "\n".join(c), nontrivial=True)
+        if ok:
+            chk.cov["traces_validated_against_impl"] += 1
+    chk.bump("sysv %s (model tie)" % label, len(cases))
+
+
+def conclude_tie(chk, fams, R, label):
+    """implementation/model differences: a correspondence break -> `no-failing-input-found` unless the campaign already
+    produced a concrete replay (DESIGN §2.4)"""
+    corr = [c for f in fams for c in f.corr]
+    chk.cov["sysv_model_lines_compared"] = sum(f.model_checked for f in fams)
+    chk.cov["sysv_model_differences"] = len(corr)
+    if corr and not getattr(R, "new_violations", 0):
+        diffrun.conclude(chk, False, corr[0], None, True, [], label + " (System V model PV.Model.IPCSysV)")
+    return bool(corr)
+
+
+SEM_CRASH = [
+    ("new OPEN, fresh name", [], "0 new-sem 0 s0 3 OPEN"),
+    ("new OPEN, existing name", ["1 new-sem 1 s0 2 OPEN", "1 acq 1"], "0 new-sem 0 s0 3 OPEN"),
+    ("new CREATE, fresh name", [], "0 new-sem 0 s0 3 CREATE"),
+    ("new CREATE, existing name", ["1 new-sem 1 s0 2 OPEN", "1 acq 1"], "0 new-sem 0 s0 3 CREATE"),
+    ("free by the creator", ["0 new-sem 0 s0 1 OPEN", "1 new-sem 1 s0 1 OPEN", "1 acq 1"], "0 free 0"),
+    ("free after take_ownership", ["1 new-sem 1 s0 2 OPEN", "2 new-sem 2 s0 0 OPEN", "2 own 2"], "2 free 2"),
+    ("release re-creating the set", ["0 new-sem 0 s0 2 OPEN", "1 new-sem 1 s0 5 OPEN", "0 free 0"], "1 rel 1"),
+    ("acquire re-creating the set", ["0 new-sem 0 s0 2 OPEN", "1 new-sem 1 s0 5 OPEN", "0 free 0"], "1 acq 1"),
+]
+SEM_RECOVERY = ["1 new-sem 8 s0 0 OPEN", "1 own 8", "1 free 8", "obs", "1 new-sem 9 s0 2 CREATE", "obs", "2 new-sem 10 s0 7 OPEN", "2 acq 10", "obs"]
+
+SHM_CRASH = [
+    ("new, fresh name", [], "0 new-shm 0 m0 %d" % PAGE),
+    ("new, existing name", ["1 new-shm 1 m0 %d" % (2 * PAGE), "1 wr 1 0 5"], "0 new-shm 0 m0 100"),
+    ("free by the creator, others attached", ["0 new-shm 0 m0 %d" % PAGE, "1 new-shm 1 m0 0"], "0 free 0"),
+    ("free by the last handle", ["0 new-shm 0 m0 100"], "0 free 0"),
+    ("free after take_ownership", ["1 new-shm 1 m0 100", "0 new-shm 0 m0 0", "0 own 0"], "0 free 0"),
+]
+SHM_RECOVERY = ["1 new-shm 8 m0 0", "obs", "1 own 8", "1 free 8", "obs", "1 new-shm 9 m0 100", "1 rd 9 0", "obs", "2 new-shm 10 m0 0", "2 wr 10 99 77", "1 rd 9 99", "2 lock 10", "obs", "2 unlock 10", "1 lock 9", "obs"]
+
+
+def crash_eintr_cases(fam, table, recovery, eintr_ops):
+    """every crash point the MODEL says the call has (both kill placements), then the documented recovery; EINTR scripts"""
+    out, npoints = [], {}
+    for name, setup, op in table:
+        w, rest = op.split(" ", 1)
+        rc, ml, _ = fam.model_lines(setup + [op])
+        n = ipc.ntrace(ml[len(setup)]) if len(ml) > len(setup) else 0
+        npoints[name] = n
+        for k in range(0, n + 1):
+            for v in ("crash", "crashA"):
+                if v == "crashA" and k == 0:
+                    continue
+                out.append(setup + ["%s %s %d %s" % (w, v, k, rest), "obs"] + recovery)
+    for setup, op, tail in eintr_ops:
+        w, rest = op.split(" ", 1)
+        for script in ("1", "3", "0,0,0,0,2", "150", "2,0,0,0,0,0,0,0,0,0,0,0,0,3"):
+            out.append(setup + ["%s eintr %s %s" % (w, script, rest), "obs"] + tail)
+    return npoints, out
+
+
 # ---------------------------------------------------------------------------------------------
 # C06
 
@@ -704,6 +818,14 @@ def run_c06(chk, cfg, exhaustive_cases):
     for (n, v, it) in (((6, 1, 2000), (8, 3, 2000)) if thorough else ((4, 2, 300),)):
         run_stress(chk, exe, ["stress-sem", n, v, it], "C06 v-exclusion stress")
     run_stress(chk, exe, ["eintr-wait"], "C06 acquire sleeping in semop under handled signals")
+    holder = ["1 new-sem 1 s0 2 OPEN"]
+    npoints, tie = crash_eintr_cases(fam, SEM_CRASH, SEM_RECOVERY, [
+        (holder, "1 acq 1", ["obs"]), (holder, "1 rel 1", ["obs"]),
+        (["0 new-sem 0 s0 2 OPEN", "1 new-sem 1 s0 5 OPEN", "0 free 0"], "1 acq 1", ["obs", "1 acq 1", "obs"]),
+        (["0 new-sem 0 s0 2 OPEN", "1 new-sem 1 s0 5 OPEN", "0 free 0"], "1 rel 1", ["obs"])])
+    chk.cov["sysv_crash_points"] = npoints
+    tie_cases(fam, chk, tie, "crash points and EINTR scripts")
+    conclude_tie(chk, [fam], R, "C06")
     after = ipcs_count()
     chk.cov["sysv_histories"] = R.cases
     chk.cov["sysv_histories_validated_against_spec"] = R.validated
@@ -772,6 +894,7 @@ def run_c07(chk, cfg, basic):
     R.run(rnd, batch=10)
     # the same kind of histories with the key files on a file system that reuses inode numbers
     fam4 = Fam(exe, ext4=True)
+    fam4.tie = False      # whether an inode number is reused is the file system's choice: only the recorded history (probe) is tied
     R4 = Runner(chk, fam4, "C07")
     rnd4 = [gen_history(rng, chk, rng.choice([8, 25, 60]), sem_w=0.2, shm_w=1.0, inode_reuse=True) for _ in range(120 if thorough else 40)]
     R4.run(rnd4, batch=10)
@@ -782,6 +905,13 @@ def run_c07(chk, cfg, basic):
     for (n, it) in (((4, 10000), (8, 4000)) if thorough else ((4, 1000),)):
         run_stress(chk, exe, ["stress-shm", n, it], "C07 lock stress")
     run_stress(chk, exe, ["eintr-wait"], "C07 p_shm_lock sleeping in semop under handled signals")
+    seg = ["1 new-shm 1 m0 100"]
+    npoints, tie = crash_eintr_cases(fam, SHM_CRASH, SHM_RECOVERY, [
+        (seg, "1 lock 1", ["obs", "1 unlock 1", "obs"]), (seg + ["1 lock 1"], "1 unlock 1", ["obs"]),
+        (["0 new-shm 0 m0 100", "1 new-shm 1 m0 0", "2 new-shm 2 m0 0", "0 own 0", "1 lock 1", "0 free 0"], "2 lock 2", ["obs"])])
+    chk.cov["sysv_crash_points"] = npoints
+    tie_cases(fam, chk, tie, "crash points and EINTR scripts")
+    conclude_tie(chk, [fam, fam4], R, "C07")
     after = ipcs_count()
     chk.cov["sysv_histories"] = R.cases + R4.cases
     chk.cov["sysv_histories_validated_against_spec"] = R.validated + R4.validated
